@@ -14,7 +14,8 @@ CHECKS = {
     "C02": ("model_checking", "TLA+ Calendar chain + SuccProps action property (TLC), round trips / representation independence replayed on all days, tool traces validated by CalendarTrace",
             "TLC checks the whole day chain incl. the action property that consecutive days map to consecutive values in every calendar; "
             "the real library is driven over every day for all ordered calendar pairs, successors, Hijri inside its table and "
-            "specifier-vs-held-representation equality, triples and the specifier order matrix on the boundary windows; "
+            "specifier-vs-held-representation equality, the custom specifiers of each calendar against that calendar's default output on every day, triples "
+            "and the specifier order matrix on the boundary windows; "
             "dadd/dround/dseq/dconv outputs are validated by CalendarTrace.tla",
             "trusts TLC + Calendar/Greg/HijriTab (frozen copy of data/ummulqura.tab); no conversion to bizda exists (stub), so bizda is a source only; "
             "%dB only for bizda values; known finding: day-count tail", "5 C02"),
@@ -35,13 +36,15 @@ CHECKS = {
             "oracle = chain bcum; known finding: ddiff from weekend start backwards (pinned by the suite)", "5 C07"),
     "C08": ("model_checking", "TLA+ Order (total order laws, ymcw order, sort characterisation) model-checked; dt_dcmp/in_range replayed against chain order; dtest/dsort traces validated by OrderTrace",
             "Order.tla is model-checked at small scope; dt_dcmp and dt_d_in_range_p are compared with the chain index order for day pairs "
-            "and triples in all 9 notations; dtest exit codes and dsort outputs (permutation + order, -r) are validated by OrderTrace.tla",
+            "and triples in all 9 notations; dtest exit codes (1200|150000 pairs, incl. operands with UTC offsets -12:00..+14:00 and epoch operands) and "
+            "dsort outputs (permutation + order, -r; 60|4000 runs) are validated by OrderTrace.tla",
             "pairs/triples are windows + seeded far pairs (not all 10^11); same notation on both sides; sort ties in any order", "5 C08"),
     "C12": ("model_checking", "TLA+ ZoneSem/ZoneImpl model-checked (Refines, CacheInv, Progress; pinned mechanism and index truncation as negative controls); synthetic TZif replay; all installed zones traced and validated by ZoneTrace",
             "ZoneImpl.tla (bisection + range cache, one action per loop step) is model-checked to refine ZoneSem.tla for every table <=3|4 "
             "transitions and every history of <=2|3 queries; every model table is written as a synthetic TZif file (v1/v2/v3) and every "
             "history replayed; every installed zone (independent TZif reader) is queried at every transition -1/0/+1 s, both ends and far "
-            "beyond in three orders plus local->UTC and zone-range queries, all events validated by ZoneTrace.tla",
+            "beyond in three orders plus local->UTC and zone-range queries; dzone --next/--prev at and between the transitions of 40|400 zones "
+            "(adjacent entry of the merged table, offsets on both sides); all events validated by ZoneTrace.tla",
             "installed zoneinfo = meaning of 'the zone file'; nothing judged before the first listed transition; quick tier samples a third "
             "of the zones (all extreme ones) and caps instants per zone", "5 C12"),
     "C14": ("model_checking", "TLA+ Leaps (table laws) and Bisect (refinement, Progress, pinned loop refuted) model-checked; Bisect cases replayed on leaps_before_*; TAI/GPS/%rS/rs events validated by LeapsTrace",
@@ -57,7 +60,8 @@ CHECKS = {
     "C13": ("model_checking", "TLA+ Tool (RunAll = concat RunOne; poisoning cache refuted), CycleTable (wrap; no-clear variant refuted), ZoneImpl model-checked; N-input runs vs N single runs validated by ToolTrace; strops histories vs libc",
             "the no-hidden-state law is model-checked for the cache mechanism (Tool.tla), the generation-counter table (CycleTable.tla, across wraps) and "
             "the zone lookup (ZoneImpl.tla); for every line-oriented tool/option set runs on N inputs are compared by ToolTrace.tla with N single-input "
-            "runs, with inputs priming each state (permutations of zone-table ranges, 300 needle searches, mixed value kinds, bad lines, durations)",
+            "runs, with inputs priming each state (permutations of zone-table ranges, 300 needle searches, mixed value kinds as stdin lines and as "
+            "arguments, bad lines, durations); the exit status of the N-input run must be the maximum of the single statuses",
             "outputs are split along single-run lengths; N <= 6 per run (300 for the needle counter); zones: 25|200 files", "5 C13"),
     "C19": ("fault_enumeration", "TLA+ Loader (Safe/Exact; unchecked loader refuted) and TzMap (bisection refines Find, Progress) model-checked; every model state + every truncation/corruption replayed on zif_open/tzm_open/tzm_find under ASan; lookups validated by TzMapTrace",
             "fault enumeration driven by the models: all 60k|487k Loader states and every truncation length / header-count / version / type-index "
@@ -67,7 +71,7 @@ CHECKS = {
             "memory safety is observed by the sanitizer (mmap redirected to an exact-size heap copy); counts in the model are 0..1", "5 C19"),
     "C15": ("model_checking", "TLA+ Seq state machine (safety + liveness <>done) model-checked; real dseq runs replayed event by event by SeqTrace (Emit enabled only for the next element, Stop only when none remains, Timeout never)",
             "Seq.tla (integer line with skips and --compute-from-last, month/year steps in one step with clamp, times around the clock) is "
-            "model-checked for safety and termination; 370|7000 seeded and boundary invocations of the unmodified dseq are run under a timeout and "
+            "model-checked for safety and termination (incl. --compute-from-last for dates, month steps and times, clamped elements on skipped weekdays); 350|64000 seeded and boundary invocations of the unmodified dseq are run under a timeout and "
             "their output validated line by line by SeqTrace.tla",
             "output lines are only re-encoded (date -> chain day, time -> second of day); FIRST = LAST for times is read as one full lap (the tool's "
             "reading); compound month+day increments are not judged", "5 C15"),
@@ -98,8 +102,9 @@ CHECKS = {
             "only; %db for pairs of business days; known finding: %Y %d", "5 C05"),
     "C06": ("model_checking", "TLA+ Duration (Split: Recombine, InRange, Plain) model-checked over all 31 unit subsets; integers printed by the real ddiff validated by DurationTrace incl. the single leading minus sign",
             "Duration.tla is model-checked over every subset of {w,d,H,M,S} and boundary totals; DurationTrace.tla applies Split to what ddiff "
-            "printed for all ordered pairs of 2|12 clusters of date-times (incl. spans beyond 2^31 s) under every subset (thorough: both orders, "
-            "zero padding); year/month formats are checked for months < 12 and one sign",
+            "printed for all ordered pairs of 2|12 clusters of date-times (incl. spans beyond 2^31 s: Split2, shown equal to Split, never forms the total in "
+            "seconds; seconds-only output reaches TLC as <<div 86400, mod 86400>>) under every subset (thorough: both orders, zero padding); year/month "
+            "specifiers: months < 12, one sign, and zero for date-times less than four weeks apart incl. identical ones",
             "totals as <<day diff, second diff>>; seconds-only formats for spans below 2^31 s; conservation of Y/m parts is C05", "5 C06"),
     "C20": ("model_checking", "TLA+ Locale (parse tables follow setilocale, print tables setflocale, over all setter sequences; cross-wired setters refuted) model-checked; setter sequences and locale-pair tool runs validated by LocaleTrace; self-composition over an environment/clock grid validated by EnvTrace; import audit",
             "Locale.tla is model-checked over every setter sequence; the real setilocale/setflocale are driven through seeded|all sequences of length <= 4 "
@@ -115,15 +120,18 @@ CHECKS = {
             "with the family the fields determine; each format is replayed on the library with 80|260 dates (new-year windows of all 14 year types, leap "
             "days, every month, far years), 10 clock times and ns patterns, every 5th|every format also with the value held as ymcw/ywd/yd/daisy/bizda, name "
             "tokens under 6|all prefix-free shipped locales; default outputs of the five calendars through the format-less parser; samples and dconv -f/-i "
-            "round trips (argument and whole-line stdin) are validated by FormatTrace.tla, which re-evaluates the scope on the recorded tokens",
+            "round trips (argument and whole-line stdin) are validated by FormatTrace.tla, which re-evaluates the scope on the recorded tokens; Needle.tla "
+            "(the line scanner's offset windows: Covers over 123k formats, two refuted variants) is bound to calc_grep_atom by NeedleTrace.tla and by values "
+            "embedded in lines through dconv -S",
             "formats are exhaustive up to the token bound, values are an enumerated boundary set; scope reading: one calendar family's fields (no quarter, %G only "
             "with %V), 2-/1-digit years inside the window around --base; known finding: %dB", "5 C09"),
     "C10": ("exploration", "TLA+ Lex (tokeniser transcribed over byte classes: TokSafe/Progress; pinned default branch refuted) and Buf (write discipline: Within; unguarded writers refuted) model-checked; every model string / (format, buffer size) replayed on the real tokeniser, parsers, formatters and tools under ASan+bounds with exact-size heap blocks; events validated by SafeTrace (tokeniser conformance with Lex, end pointers, return lengths)",
             "the sanitizer supplies the decisive observation, the models the exhaustive small-scope input structure: all 30k|400k byte-class strings of <= 4|5 "
             "positions (13 classes) are concretised and used as format and as text on the __tok_spec loop, dt_strpdt/strpd/strpt/strpdtdur, "
             "dt_strfdt/strfd/strft/strfdtdur with buffers of 1..32 bytes; every (format, bsz) of Buf and all pairs of 56 real tokens x bsz 1..23; runs of "
-            "15..5000 identical bytes; 10 tools with the strings as value, -f, -i, stdin line, duration, expression, round spec, increment and with formats of "
-            "246..258 bytes ending in a specifier; SafeTrace.tla demands the token count and end offset Lex.tla computes for every string",
+            "15..5000 identical bytes; 10 tools with the strings as value, -f, -i, stdin line, duration, expression, round spec, increment, zone name, escaped "
+            "format, every modifier x specifier letter alone and at the 254/250-byte edge, formats of 246..258 bytes ending in a specifier, streams around the "
+            "16384-line chunk limit; SafeTrace.tla demands the token count and end offset Lex.tla computes for every string",
             "no proof of memory safety: ASan/UBSan-bounds on the explored inputs; C strings without embedded NUL; assertion failures count as violations", "5 C10"),
 }
 NOT_APPLICABLE = []
